@@ -32,6 +32,20 @@ def sh(cmd, **kw):
     return subprocess.run(cmd, shell=True, capture_output=True, text=True, **kw)
 
 
+def run_bounded(cmd, cwd, seconds):
+    """Like sh(), but the whole process group is killed after `seconds` (a mutant may make the library loop for ever)."""
+    import signal  # pylint: disable=import-outside-toplevel
+
+    with subprocess.Popen(cmd, shell=True, stdout=subprocess.PIPE, stderr=subprocess.PIPE, text=True, cwd=cwd, start_new_session=True) as proc:
+        try:
+            out, err = proc.communicate(timeout=seconds)
+        except subprocess.TimeoutExpired:
+            os.killpg(proc.pid, signal.SIGKILL)
+            proc.communicate()
+            return None
+    return subprocess.CompletedProcess(cmd, proc.returncode, out, err)
+
+
 class Collector(ast.NodeVisitor):
     """Collects (node, kind, replacement source) candidates."""
 
@@ -331,7 +345,12 @@ def cmd_checks(work, only=None, status='survived', outfile='checks.jsonl', max_c
             rec = {'id': mid, 'ran': [], 'killed_by': None, 'harness': []}
             t0 = time.time()
             for check in order:
-                res = sh(f'VERIF_REPO={tree} /venv/bin/python {VERIF}/check.py {check} --tier quick', cwd=VERIF)
+                res = run_bounded(f'VERIF_REPO={tree} /venv/bin/python {VERIF}/check.py {check} --tier quick', cwd=VERIF, seconds=420)
+                if res is None:
+                    rec['ran'].append(check)
+                    rec['killed_by'] = check
+                    rec['violation'] = 'TIMEOUT: the check did not terminate within 420 s (a hang of the library under the generated cases)'
+                    break
                 rec['ran'].append(check)
                 if res.returncode == 1:
                     vio = [l for l in res.stdout.splitlines() if l.startswith('VIOLATION')]
